@@ -2575,8 +2575,8 @@ V(id='c35-prodstring-falls-off', prop='C35', file='mpmath/identification.py',
 
 # ---- C14 second hunt pass 2: C-R19 exact-table pass-through, C-R20 atan2 corners (fixes 7d559d3, 474e06b, a0650c6) ----
 V(id='c14-outward-short-value-taken-as-exact', prop='C14', file='mpmath/libmp/libmpi.py',
-  old="    sign, man, exp, bc = v\n    if not man:\n        return v\n",
-  new="    sign, man, exp, bc = v\n    if not man:\n        return v\n    if exact_at_integers and args[0][2] >= 0 and bc <= prec:\n        return v\n",
+  old="    if not man:\n        return v\n    if bool(sign)",
+  new="    if not man:\n        return v\n    if exact_at_integers and args[0][2] >= 0 and bc <= prec:\n        return v\n    if bool(sign)",
   expect='fire:C-R19:mpf_outward')
 V(id='c14-outward-exact-bound-beyond-table', prop='C14', file='mpmath/libmp/libmpi.py',
   old="            (man << exp) < SMALL_FACTORIAL_CACHE_SIZE:\n", new="            (man << exp) < 200:\n",
